@@ -20,6 +20,9 @@ inductive Oblig where
   | self_ (tr : Trait)
   /-- `Self: Copy` -/
   | copySelf
+  /-- `Self` does **not** implement `Drop`: rustc refuses `as` casts of a field-less enum that has a `Drop` impl
+  ("cannot cast enum `E` into integer `isize` because it implements `Drop`") -/
+  | noDrop
   deriving DecidableEq, Repr
 
 /-- The trait a qualified method belongs to. -/
@@ -50,6 +53,8 @@ def Expr.nodeBad (ok : Oblig → Bool) : Expr → Bool
   | .methodCall r .zeroize => argsBad ok .zeroize [r]
   | .methodCall r .zeroizeOrOnDrop => argsBad ok .zeroizeOnDrop [r]
   | .deref (.var .self_) | .deref (.var .other) => !ok .copySelf
+  -- an `as` cast of a value of the item type (the `Copy` / `Clone` shortcut of the discriminant comparison)
+  | .cast (.deref (.var .self_)) _ | .cast (.deref (.var .other)) _ | .cast (.selfCall .clone _) _ => !ok .noDrop
   | _ => false
 
 def Stmt.nodeBad (ok : Oblig → Bool) : Stmt → Bool
@@ -68,7 +73,8 @@ def Expr.oblBad (ok : Oblig → Bool) : Expr → Bool
   | .discFnCall body arg => body.oblBad ok || arg.oblBad ok
   | .validateConst _ body => body.oblBad ok
   | .deref e => Expr.nodeBad ok (.deref e) || e.oblBad ok
-  | .ref e | .refMut e | .cast e _ | .paren e | .ptrRead e _ | .ret e
+  | .cast e t => Expr.nodeBad ok (.cast e t) || e.oblBad ok
+  | .ref e | .refMut e | .paren e | .ptrRead e _ | .ret e
   | .matches_ e _ => e.oblBad ok
   | .binop _ a b => a.oblBad ok || b.oblBad ok
   | .ifElse c t e => c.oblBad ok || t.oblBad ok || e.oblBad ok
